@@ -24,7 +24,7 @@ func init() {
 }
 
 func runC06(c *Ctx, r *Report, tier string) {
-	r.Rule("GATE", "checkRequired is called REQ(parseState.err == nil), after the defaults pass; every dispatch MPT(via checkRequired)", 4)
+	r.Rule("GATE", "checkRequired is called REQ(parseState.err == nil) and under no other condition, after the defaults pass; every dispatch MPT(via checkRequired)", 4)
 	r.Rule("WALK", "active-chain walk: starts at Parser.Command, steps by Command.Active, leaves only when the variable is nil; checkRequired reaches neither eachCommand nor eachOption", 4)
 	r.Rule("SELECT", "an option is appended to the missing list under exactly ¬isSet ∧ Required (AG), ranging over Group.options of every nested group (eachGroup)", 3)
 	r.Rule("POSITIONAL", "positional constraints only when no option is missing; compared quantities are Arg.Required / Arg.RequiredMaximum / Value.Len(Arg.value) / ArgsRequired of parseState.command", 5)
@@ -285,6 +285,45 @@ func runC06(c *Ctx, r *Report, tier string) {
 				}
 			}
 		}
+	}
+	// the required check runs on every error-free parse: its call depends on no condition but `parseState.err == nil`
+	if pa := c.mustFn(r, "(*Parser).ParseArgs"); pa != nil {
+		sites := c.instrs(pa, c.isCallTo("(*parseState).checkRequired"))
+		argLoop := c.loopContaining(pa, c.isCallTo("(*parseState).pop"))
+		for _, in := range sites {
+			var extra []string
+			for _, d := range c.controlDeps(pa, in.Block()) {
+				l, ok := c.edgeLit(d.B, d.Succ)
+				if !ok {
+					extra = append(extra, "an unnamed condition at "+c.ipos(d.B.Instrs[len(d.B.Instrs)-1]))
+					continue
+				}
+				if !l.Pos && (strings.HasPrefix(l.Term, "nonnil(parseState.err(") || strings.HasPrefix(l.Term, "nonnil(Parser.internalError(") || l.Term == `nonempty(call:os.Getenv("GO_FLAGS_COMPLETION"))`) {
+					continue // no earlier error, no declaration error, not in completion mode: the parse is running
+				}
+				if argLoop != nil && c.inLoop(argLoop, d.B) { // leaving the argument loop: not a condition on the check itself
+					continue
+				}
+				extra = append(extra, l.String())
+			}
+			r.Check(len(extra) == 0, "GATE", c.fname(pa), "the required check runs on every error-free parse", c.ipos(in), "CD(checkRequired) ⊆ {parseState.err == nil, internalError == nil, not completing}", "checkRequired is called only under "+strings.Join(extra, "; ")+": missing required options are not reported otherwise")
+		}
+		r.Check(len(sites) >= 1, "GATE", c.fname(pa), "checkRequired call found", c.pos(pa.Pos()), "≥ 1", "none")
+	}
+	// every positional argument is examined: the loop over them is left only when the list is exhausted
+	if pl := c.loopContaining(cr, func(x ssa.Instruction) bool {
+		u, ok := x.(*ssa.UnOp)
+		return ok && strings.HasPrefix(c.term(u), "Arg.Required(")
+	}); pl != nil {
+		var early []string
+		for _, e := range pl.exits() {
+			if e.B != pl.Header {
+				early = append(early, c.ipos(e.B.Instrs[len(e.B.Instrs)-1]))
+			}
+		}
+		r.Check(len(early) == 0, "POSITIONAL", fname, "every positional argument's constraint is examined", c.ipos(pl.Header.Instrs[0]), "the loop over the positional arguments exits only at its header", "the loop is left early at "+strings.Join(early, ", ")+": constraints of the arguments after that one are never checked")
+	} else {
+		r.Fail("POSITIONAL", fname, "loop over the positional arguments", "", "not found")
 	}
 	needLits := []struct{ desc, a, b string }{
 		{"at-least test Len(value) < Required", "lt(call:(reflect.Value).Len(Arg.value(" + elem, "Arg.Required(" + elem},
